@@ -296,13 +296,11 @@ def _eval_inner(case, c):
         c.arr("M(a(-)b) = M(b)^-1 M(a)", G.to_mat(kind, I.comps(d)), Mexp, sc2)
         # (a (+) b) (-) b = a ; (a (-) b) (+)-left ... b (+) (a (-) b) = a
         c.phys("b (+) (a (-) b) = a", kind, pb + d, a, sc2 * 2)
-        # in-place form rebinds and equals composition; operands untouched
-        q = pa
+        # the in-place spelling equals composition (whether it rebinds or updates in place is not C09's business: it works on a copy)
+        q = pa.copy()
         q += pb
         c.phys("p += q", kind, q, I.comps(r), sc2)
         c.nops += 1
-        if q is pa:
-            c.msgs.append("p += q returned the same object (operand mutated in place)")
         if _stored(pa) != a0 or _stored(pb) != b0:
             c.msgs.append("operator mutated an operand")
         # history: the left operand is edited IN PLACE (poses are arrays) and used again -- no stale intermediate results
